@@ -53,6 +53,10 @@ T = {
     text="SMT-LIB scripts written by my own writer from generated blueprints with syntactic variation (literal notations, quoted symbols, nested/parallel/swap lets, binders and define-fun parameters shadowing globals, definitions and lets applied under binders of the same name, declare-const, chainable / n-ary / distinct / xor forms, numerals typed by the logic, comments) are read by pySMT (fresh parser, and one parser object re-used over several scripts) and by an independent strict reader: every assert, define-fun body, get-value term and declaration pySMT returns must have the standard meaning under the reference evaluator, or pySMT must raise; malformed variants of classes with an unambiguous expectation must be rejected; a committed corpus of 106 construct snippets must stay accepted with the standard meaning.",
     note="Trusted: vf/smtref.py as the standard reading, vf/refsem.py. Any parser exception is a rejection. Int/Real binders are compared under a finite binder window on both readings. Three open findings (capture by binders x2, undeclared symbol read as String) are excluded by their construct tag.",
     technique="differential property-based testing of the parser against an independent SMT-LIB elaborator; grammar-based generation with construct tags; regression corpus"),
+ "C09": dict(level="exploration", design="4/C09",
+    text="(a) Generated formulas with hostile names (incl. | and backslash, consecutive let-like names) are printed by both SMT-LIB printers through smtlibscript_from_formula and parsed back in the same environment: the result must be the very same object (array values: equal after collapsing store chains). (b) Generated scripts over the serialisable commands with names / ids needing quoting are parsed, re-serialised (both printers) and re-parsed: the command lists must be equal (formulas by identity, numeric option values by value, definitions up to parameter renaming). (c) Formulas of the human-readable fragment: HRParser.parse(f.serialize()) must parse, have the same type, reference value and the same structure up to n-ary grouping.",
+    note="Trusted: hash-consing (C04) for identity; vf/refsem.py for (c). Symbols named like a delimiter ('(' , ')' , leading double quote) are an open finding (tokenizer) and excluded by class; String-sorted array-value texts are outside the HR fragment.",
+    technique="round-trip property testing (print-parse identity, parse-serialize-parse equality, HR round trip with reference evaluation)"),
 }
 
 checks, na = [], []
